@@ -91,7 +91,7 @@ PART_PATTERNS = {
     'dom'        : r"(0[1-9]|[1-2][0-9]|3[0-1])",
     'dom_short'  : r"(3[0-1]|[1-2][0-9]|[1-9])",
     'doy'        : r"(?:[0-2]\d\d|3[0-5][0-9]|36[0-6])",
-    'doy_short'  : r"(?:[0-2]\d\d|3[0-5][0-9]|36[0-6])",
+    'doy_short'  : r"(?:36[0-6]|3[0-5][0-9]|[1-2][0-9][0-9]|[1-9][0-9]|[1-9])",
     'MAJOR'      : r"\d+",
     'MINOR'      : r"\d+",
     'MM'         : r"\d{2,}",
